@@ -113,6 +113,15 @@ def judge(ctx, case, ctext, lam_params, b, inputs, nodes, rec, parsed, msg):
     for i, n in nodes.items():
         by_dump.setdefault(OR.dump(n), []).append(i)
     free_names = {n.id for n in ast.walk(ast.parse(ctext, mode="eval")) if isinstance(n, ast.Name)}
+    inside_comps = set()
+    for comp in ast.walk(ast.parse(ctext, mode="eval")):
+        if isinstance(comp, (ast.ListComp, ast.SetComp, ast.DictComp, ast.GeneratorExp)):
+            for sub in ast.walk(comp):
+                if isinstance(sub, ast.expr) and sub is not comp:
+                    try:
+                        inside_comps.add(OR.dump(sub))
+                    except Exception:  # noqa
+                        pass
     feats = set(case.get("features", []))
     listed = set()
     shape = "%s%s" % (role, "/async" if case["async"] else "")
@@ -149,12 +158,20 @@ def judge(ctx, case, ctext, lam_params, b, inputs, nodes, rec, parsed, msg):
         if is_arg and role != "invariant":
             cands.append(call_args[key])
         if isinstance(val, tuple):
+            knode = ast.parse("(" + key + ")", mode="eval").body
+            if not (isinstance(knode, ast.Call) and getattr(knode.func, "id", None) == "all"):
+                # the falsifying-example object of an inner all(...) flowed through a call or a boolean operator
+                # and is shown for the enclosing expression; accepted when that expression is falsy for Python
+                st_, v = OR.evaluate(key, b, list(b))
+                if st_ == "ok" and not v and "all(" in key:
+                    ctx.count("all_example_shown_for_enclosing_expression")
+                    continue
             check_all_entry(ctx, fail, key, val[1], b, ctext)
             continue
         if key == "self" and role == "invariant":
             continue
         if not cands:
-            if kd in by_dump:
+            if kd in by_dump and kd not in inside_comps:
                 fail("soundness:value-of-unevaluated", "%r is shown as %s but Python never evaluated it" % (key, val), key)
                 return
             # a sub-expression inside a comprehension that does not depend on the targets: value under outer bindings
